@@ -1,6 +1,8 @@
 package chansim
 
 import (
+	"verif/simcore"
+	"strings"
 	"fmt"
 
 	"github.com/lightningnetwork/lnd/channeldb"
@@ -166,6 +168,28 @@ func (s *Sim) Run() {
 		}
 		r.Kind(fmt.Sprintf("%s:%s", e.kind, nm(e.side)))
 		s.events++
+		// C02, crash points INSIDE a call: every write transaction that
+		// commits while the event runs is a point where the node can stop.
+		// The database is forked right after each of them; what a reload of
+		// such a fork shows must be the durable state from before the event
+		// or the one after it, never something in between.
+		var midForks [2][]*simcore.SimKV
+		var preDigest [2][]string
+		atomicity := s.Mode.ForkReload > 0 && !strings.Contains(e.kind, "!io") && e.kind != "cut" && e.kind != "stale-write"
+		if atomicity {
+			for x := 0; x < 2; x++ {
+				x := x
+				preDigest[x] = durableDigest(s.P[x].Chan.State())
+				kv := s.P[x].KV
+				kv.OnCommitted = func(k int) {
+					s.forkNo++
+					f, err := kv.Fork(r.SubDir(fmt.Sprintf("mid%d%s", s.forkNo, nm(x))))
+					if err == nil {
+						midForks[x] = append(midForks[x], f)
+					}
+				}
+			}
+		}
 		switch e.kind {
 		case "add":
 			s.opAdd(e.side)
@@ -195,6 +219,12 @@ func (s *Sim) Run() {
 			s.deliverPrefixesAndCut(-1)
 		case "stale-write":
 			s.opStaleWrite(e.side)
+		}
+		if atomicity {
+			for x := 0; x < 2; x++ {
+				s.P[x].KV.OnCommitted = nil
+			}
+			s.checkWriteAtomicity(e.kind, midForks, preDigest)
 		}
 		s.CheckAll()
 		s.noteConcurrency()
@@ -357,4 +387,62 @@ func (s *Sim) opStaleWrite(side int) {
 	if s.Mode.ForkReload == 0 {
 		s.ForkCheck(false)
 	}
+}
+
+// checkWriteAtomicity examines the forks taken after each write transaction
+// of the event that just ran (see Run). The last fork of a party equals its
+// state after the event; every earlier one is a crash point between two write
+// transactions of ONE call and must reload to the durable state before or
+// after the event.
+func (s *Sim) checkWriteAtomicity(kind string, forks [2][]*simcore.SimKV, pre [2][]string) {
+	r := s.R
+	for x := 0; x < 2; x++ {
+		fs := forks[x]
+		r.Add("write_txs_observed_inside_events", int64(len(fs)))
+		if len(fs) > 1 {
+			r.Count("probe_event_with_several_write_txs")
+			if s.aborted || s.P[x].KV.Fenced() {
+				fs = nil
+			}
+		}
+		var post []string
+		if len(fs) > 1 {
+			post = durableDigest(s.P[x].Chan.State())
+		}
+		for i, kv := range forks[x] {
+			if len(fs) > 1 && i < len(fs)-1 {
+				db, err := channeldb.CreateWithBackend(kv, s.P[x].DBOpts...)
+				if err != nil {
+					r.Fail("reload-error", "%s: database does not reopen after a crash between write transactions %d and %d of %s: %v", nm(x), i+1, i+2, kind, err)
+				}
+				ch, err := LoadChannel(db, s.P[x].IDPub, s.P[x].Signer, s.P[x].Pool)
+				if err != nil {
+					r.Fail("reload-error", "%s: channel does not reopen after a crash between write transactions %d and %d of %s: %v", nm(x), i+1, i+2, kind, err)
+				}
+				d := durableDigest(ch.State())
+				if diffDigest(pre[x], d) != "" && diffDigest(post, d) != "" {
+					r.Fail("write-not-atomic", "%s: %s performs %d write transactions; a crash after the %d. one leaves a durable state that is neither the one before the call nor the one after it (vs before: %s | vs after: %s)",
+						nm(x), kind, len(fs), i+1, diffDigest(pre[x], d), diffDigest(post, d))
+				}
+				r.Count("crash_points_between_write_txs")
+			}
+			kv.Close()
+		}
+	}
+}
+
+// durableDigest is stateDigest plus the forwarding packages on disk (the
+// record of what a revocation locked in is written by the same call that
+// advances the commitment chain).
+func durableDigest(st *channeldb.OpenChannel) []string {
+	out := stateDigest(st)
+	pkgs, err := st.LoadFwdPkgs()
+	if err != nil {
+		return append(out, "fwdpkgs: error "+err.Error())
+	}
+	for _, p := range pkgs {
+		out = append(out, fmt.Sprintf("fwdpkg h=%d state=%d adds=%d settlefails=%d ack=%v fwd=%v sf=%v",
+			p.Height, p.State, len(p.Adds), len(p.SettleFails), p.AckFilter, p.FwdFilter, p.SettleFailFilter))
+	}
+	return out
 }
